@@ -11,6 +11,7 @@ import (
 	"hop.computer/hop/common"
 	"hop.computer/hop/config"
 	"hop.computer/hop/core"
+	"hop.computer/hop/portforwarding"
 	"hop.computer/hop/transport"
 	"hop.computer/hop/tubes"
 )
@@ -107,4 +108,60 @@ func VH_C01_client_always_requests_the_configured_server_name() {
 	}
 	verifAssert(v.Name.Type == typ, "C01: the requested name has the type of the configured field")
 	verifAssertStrEq(string(v.Name.Label), want, "C01: the requested name is the configured server name / address / host name")
+}
+
+// C11 (client side): the SERVER is an authenticated peer too. Whatever tube it
+// opens towards the client - any type byte, reliable or not, whether or not the
+// client configured remote forwards or the principal role - the client's tube
+// handler and the goroutine it starts for that tube do not panic.
+
+var c11Accepts int
+var c11Type byte
+var c11Reliable bool
+
+func c11Accept(m *tubes.Muxer) (tubes.Tube, error) {
+	c11Accepts++
+	if c11Accepts > 1 {
+		return nil, io.EOF
+	}
+	if c11Reliable {
+		return &tubes.Reliable{}, nil
+	}
+	return &tubes.Unreliable{}, nil
+}
+func c11RelType(r *tubes.Reliable) tubes.TubeType     { return tubes.TubeType(c11Type) }
+func c11UnrelType(u *tubes.Unreliable) tubes.TubeType { return tubes.TubeType(c11Type) }
+func c11RelClose(r *tubes.Reliable) error             { return nil }
+func c11UnrelClose(u *tubes.Unreliable) error         { return nil }
+func c11RelID(r *tubes.Reliable) byte                 { return 2 }
+func c11UnrelID(u *tubes.Unreliable) byte             { return 2 }
+func c11RelIsRel(r *tubes.Reliable) bool              { return true }
+func c11UnrelIsRel(u *tubes.Unreliable) bool          { return false }
+
+//verif:prop C11
+//verif:replay none
+//verif:stub (*hop.computer/hop/tubes.Muxer).Accept = c11Accept
+//verif:stub (*hop.computer/hop/tubes.Reliable).Type = c11RelType
+//verif:stub (*hop.computer/hop/tubes.Unreliable).Type = c11UnrelType
+//verif:stub (*hop.computer/hop/tubes.Reliable).Close = c11RelClose
+//verif:stub (*hop.computer/hop/tubes.Unreliable).Close = c11UnrelClose
+//verif:stub (*hop.computer/hop/tubes.Reliable).GetID = c11RelID
+//verif:stub (*hop.computer/hop/tubes.Unreliable).GetID = c11UnrelID
+//verif:stub (*hop.computer/hop/tubes.Reliable).IsReliable = c11RelIsRel
+//verif:stub (*hop.computer/hop/tubes.Unreliable).IsReliable = c11UnrelIsRel
+//verif:bounds one tube opened by the server: type byte over all 256 values, reliable or unreliable; client with or without configured remote forwards, principal role on or off; the port-forward handler goroutine started for the tube is run inline up to its first network call
+//verif:cover handled
+func VH_C11_client_survives_any_tube_the_server_opens() {
+	c11Accepts = 0
+	c11Type, c11Reliable = verifU8("tube-type"), verifBool("reliable")
+	hc := &config.HostConfig{IsPrincipal: verifBool("principal-role")}
+	if verifBool("remote-forwards-configured") {
+		hc.RemoteFwds = &portforwarding.Forward{}
+	}
+	c := &HopClient{hostconfig: hc, TubeMuxer: &tubes.Muxer{}}
+	c.HandleTubes()
+	// run what the handler started for a port-forward tube
+	for verifRunGo("HandlePF") {
+	}
+	verifCover("handled")
 }
